@@ -11,6 +11,8 @@ pristine reference parse accepts it.  A small name pool makes unit names collide
 across programs and lets declarations shadow intrinsics.
 """
 
+from . import zoo
+
 UNIT_NAMES = ["p", "q", "m", "s", "f", "main", "sub1", "mod_a"]
 SHADOW = ["sin", "cos", "max", "min", "abs", "sum", "size", "mod"]
 F08_INTRINSICS = ["norm2", "findloc", "bessel_j0", "erfc_scaled", "hypot", "iall"]
@@ -141,6 +143,30 @@ class Gen:
             return '"' + body2 + '"'
         return "'" + body.replace('"', '"') + "'"
 
+    def emit_zoo(self, text, depth, opener=None, f08=False, kind="zoo", simple=False):
+        toks = zoo.tokens(text)
+        label = None
+        name = None
+        if len(toks) > 1 and toks[0].isdigit() and not toks[1] in ("=", "*", "+", "-", "/"):
+            label = int(toks[0])
+            toks = toks[1:]
+        if len(toks) > 2 and toks[1] == ":" and toks[0].replace("_", "").isalnum():
+            name = toks[0]
+            toks = toks[2:]
+        return self.emit(toks, kind, depth, label=label, name=name, opener=opener, f08=f08,
+                         simple=simple)
+
+    def emit_zoo_group(self, group, depth, f08=False):
+        first = self.emit_zoo(group[0], depth, f08=f08, kind="zoo_open")
+        for text in group[1:-1]:
+            low = text.lower().lstrip("0123456789 ")
+            mid = low.startswith(("else", "case", "type is", "class is", "class default",
+                                  "contains", "elsewhere", "end ", "enddo")) and \
+                not low.startswith("end subroutine x")
+            self.emit_zoo(text, depth if mid and not low.startswith("end ") else depth + 1,
+                          opener=first, f08=f08, kind="zoo_mid")
+        self.emit_zoo(group[-1], depth, opener=first, f08=f08, kind="zoo_close")
+
     # ------------------------------------------------------------------ expressions
     def int_expr(self, d=0):
         r = self.r.random()
@@ -156,7 +182,7 @@ class Gen:
         if r < 0.88:
             return ["size", "(", self.pick(self.arrs), ")"]
         if r < 0.94:
-            return ["-"] + [self.pick(self.ints)]
+            return ["(", "-", self.pick(self.ints), ")"]
         return self.int_expr(d + 1) + ["**", str(self.r.randrange(2, 4))]
 
     def real_lit(self):
@@ -260,6 +286,13 @@ class Gen:
 
     def simple_stmt(self, depth, in_sub):
         """One action statement (no construct)."""
+        zrate = self.features.get("zoo", 0.2)
+        if zrate and self.chance(zrate):
+            pool = zoo.EXEC + (zoo.EXEC_F08 if self.std == "f2008" and
+                               self.features.get("f08", True) else [])
+            text = self.pick(pool)
+            self.emit_zoo(text, depth, simple=True, f08=text in zoo.EXEC_F08, kind="zoo")
+            return
         r = self.r.random()
         lab = None
         if self.chance(0.04):
@@ -318,6 +351,12 @@ class Gen:
         self.budget -= 1
         if depth >= self.max_depth or self.chance(0.55):
             self.simple_stmt(depth, in_sub)
+            return
+        zrate = self.features.get("zoo", 0.2)
+        if zrate and self.chance(zrate * 0.6):
+            f08 = self.std == "f2008" and self.features.get("f08", True) and self.chance(0.4)
+            self.emit_zoo_group(self.pick(zoo.EXEC_GROUPS_F08 if f08 else zoo.EXEC_GROUPS),
+                                depth, f08=f08)
             return
         r = self.r.random()
         nm = self.cname() if self.chance(0.3) else None
@@ -523,6 +562,14 @@ class Gen:
             self.emit(["real", "::", "u"], "decl", depth + 2)
             self.emit(["end", "subroutine", "ext"], "end_subroutine", depth + 1, opener=op2)
             self.emit(["end", "interface"], "end_interface", depth, opener=op)
+        zrate = self.features.get("zoo", 0.2)
+        if zrate and self.chance(zrate * 2.5):
+            pool = [t for t in zoo.SPEC if t != "enum, bind(c)"] + (
+                zoo.SPEC_F08 if self.std == "f2008" and self.features.get("f08", True) else [])
+            for text in self.r.sample(pool, self.r.randrange(1, 5)):
+                self.emit_zoo(text, depth, f08=text in zoo.SPEC_F08, kind="decl")
+            if self.chance(0.5):
+                self.emit_zoo_group(self.pick(zoo.SPEC_GROUPS), depth)
         if self.chance(0.15):
             self.emit(["data", "i", "/", "1", "/"], "data", depth)
         if self.chance(0.12):
@@ -626,7 +673,7 @@ class Gen:
                 mods.append(nm)
             elif r < 0.62 and self.std == "f2008" and mods and self.features.get("f08", True):
                 self.submodule(mods[0], nm)
-            elif r < 0.66:
+            elif r < 0.66 and not any(st.kind == "block_data" for st in self.out):
                 self.block_data()
             else:
                 self.subprogram(0, nm, allow_contains=True)
